@@ -129,6 +129,7 @@ func main() {
 	cases = append(cases, terminalEnvironments(e)...)
 	cases = append(cases, terminalLargeTexts(e)...)
 	cases = append(cases, specialOutputs(e)...)
+	cases = append(cases, contentShapes(e)...)
 	cases = append(cases, specialInputs(e)...)
 	r.Set("planned_process_runs_lower_bound", len(cases))
 	mon.ParN(12, len(cases), func(i int) { r.Guard(fmt.Sprintf("case#%d", i), cases[i]) })
